@@ -95,6 +95,11 @@ func NewChainDataBase(home string) *ChainDatabase {
 			}
 		}
 		db.LastConfirm.Top.Rank(max_candidate_count, newCandidate)
+		// the global candidate list lives in memory only. It has to know every registered candidate again,
+		// because the ranking falls back on it when the top list shrinks or its minimum drops
+		for _, val := range newCandidate {
+			db.LastConfirm.CandidateTrieDB.Set(val)
+		}
 	}
 	return db
 }
